@@ -70,6 +70,11 @@ type poolSpec struct {
 	ReflectPort     int    // reflect_port (0: reflection on the target itself)
 	Timeout         string // gun timeout ("" = 120s)
 	ContinueOnError bool   // grpc/json continueonerror
+	TLS             bool              // gun `tls: true`
+	ReflectMetadata map[string]string // gun `reflect_metadata`
+	Authority       string            // gun `dial_options.authority`
+	NoTimeout       bool              // no `timeout` key at all: the gun's default (15 s) applies
+	AfterDecode     func()            // called between config decode (gun constructors run there) and Engine.Run
 	// YAMLShape: nested maps as yaml.v2 produces them (map[interface{}]interface{}, the acceptance
 	// tests' path) instead of viper's map[string]interface{} (the CLI's path)
 	YAMLShape bool
@@ -100,8 +105,24 @@ func (ps poolSpec) configMap() map[string]interface{} {
 		if ps.Timeout != "" {
 			gun["timeout"] = ps.Timeout
 		}
+		if ps.NoTimeout {
+			delete(gun, "timeout")
+		}
 		if ps.ReflectPort != 0 {
 			gun["reflect_port"] = ps.ReflectPort
+		}
+		if ps.TLS {
+			gun["tls"] = true
+		}
+		if len(ps.ReflectMetadata) > 0 {
+			m := map[string]interface{}{}
+			for k, v := range ps.ReflectMetadata {
+				m[k] = v
+			}
+			gun["reflect_metadata"] = m
+		}
+		if ps.Authority != "" {
+			gun["dial_options"] = map[string]interface{}{"authority": ps.Authority}
 		}
 	}
 	if ps.Shared {
@@ -177,6 +198,9 @@ func runPool(rec *grpctarget.Rec, ps poolSpec, limit time.Duration) (error, erro
 		return fmt.Errorf("decoded %d pools", len(conf.Engine.Pools)), nil
 	}
 	p := &conf.Engine.Pools[0]
+	if ps.AfterDecode != nil {
+		ps.AfterDecode()
+	}
 	grpctarget.FirstShotDelay = ps.FirstShotDelay
 	p.Provider = &grpctarget.RecProvider{Inner: p.Provider, Rec: rec}
 	p.NewGun = grpctarget.WrapGunFactory(rec, p.NewGun)
